@@ -14,7 +14,7 @@ MIN_CONF = [0.0, 0.05, 0.1, 0.3, 0.5, 0.9, 1.0]
 MAX_DEPTH = [1, 2, 3, 10]
 
 
-def gen_spec(rng):
+def gen_spec(rng, big=False):
     """Ontology with concept associations and relations + events, as a JSON-able spec."""
     ets = []
     for t in range(rng.randint(1, 3)):
@@ -30,11 +30,11 @@ def gen_spec(rng):
                           'multivalued': rng.random() < 0.5})
         rels = []
         names = [p['name'] for p in props]
-        for _ in range(rng.randint(0, 4)):
+        for _ in range(rng.randint(3, 8) if big else rng.randint(0, 4)):
             if len(props) < 2:
                 break
             a, b = rng.sample(props, 2)
-            kind = rng.choice(['intra', 'inter', 'other', 'name', 'description', 'container'])
+            kind = rng.choice(['intra', 'intra', 'intra', 'inter', 'other'] if big else ['intra', 'inter', 'other', 'name', 'description', 'container'])
             r = {'kind': kind, 'source': a['name'], 'target': b['name'], 'confidence': rng.choice([1, 2, 5, 9, 10])}
             if kind in ('intra', 'inter'):
                 if not a['assocs'] or not b['assocs']:
@@ -62,7 +62,7 @@ def gen_spec(rng):
                 later.append({'kind': kind, 'source': a['name'], 'target': b['name']})
         ets.append({'name': 't%d' % t, 'props': props, 'rels': rels, 'names': names, 'later': later})
     events = []
-    for _ in range(rng.randint(0, 7)):
+    for _ in range(rng.randint(8, 14) if big else rng.randint(0, 7)):
         et = rng.choice(ets)
         props = []
         for p in et['props']:
@@ -108,6 +108,109 @@ def build_ontology(spec, extra=False):
     return o
 
 
+EPS = Fraction(1, 10**9)
+
+
+class SearchTracer:
+    """Records every reasoning pass of a mining run (ConceptInstanceGraph._reason_from): per iteration of its loop the node
+    that was processed and the edges that were considered (Node.get_same_concept_inferences), and per edge the confidence the
+    pass assigned through it (Inference.reason), if it did. The model replays these traces (op search)."""
+
+    def __init__(self):
+        self.passes = []
+        self.cur = None
+        self.problem = None
+
+    def __enter__(self):
+        import inspect
+        try:
+            from edxml.miner.graph.graph import ConceptInstanceGraph
+            from edxml.miner.node import Node
+            from edxml.miner.inference import Inference
+            self.classes = (ConceptInstanceGraph, Node, Inference)
+            self.orig = (ConceptInstanceGraph._reason_from, Node.get_same_concept_inferences, Inference.reason)
+        except Exception as ex:
+            self.problem = 'the reasoning pass cannot be traced: %s' % ex
+            self.classes = None
+            return self
+        tracer = self
+        o_from, o_same, o_reason = self.orig
+        sig = inspect.signature(o_from)
+
+        def reason_from(g, *a, **kw):
+            try:
+                b = sig.bind(g, *a, **kw)
+                b.apply_defaults()
+                seed, min_c, max_d = b.arguments['seed'], b.arguments['min_confidence'], b.arguments['max_depth']
+            except Exception as ex:
+                tracer.problem = 'the reasoning pass cannot be traced: %s' % ex
+                return o_from(g, *a, **kw)
+            idx, nodes = {}, []
+
+            def index(n):
+                if id(n) not in idx:
+                    idx[id(n)] = len(nodes)
+                    nodes.append(n)
+                return idx[id(n)]
+            for n in list(g._nodes.values()):
+                index(n)
+            p = {'seed': index(seed), 'seed_id': seed.id, 'min': min_c, 'max_depth': max_d, 'steps': [], 'objs': [], 'index': index,
+                 'unmatched': 0}
+            tracer.cur = p
+            try:
+                return o_from(g, *a, **kw)
+            finally:
+                tracer.cur = None
+                p['nodes'] = [[n.confidence, n.taint] for n in nodes]
+                p['sc'] = [n.seed_confidences.get(seed.id) for n in nodes]
+                p['ids'] = [n.id for n in nodes]
+                del p['index'], p['objs']
+                tracer.passes.append(p)
+
+        def same(node, *a, **kw):
+            edges = o_same(node, *a, **kw)
+            p = tracer.cur
+            if p is None:
+                return edges
+            edges = list(edges)
+            p['steps'].append([p['index'](node), [[p['index'](e.target), e.confidence, None] for e in edges]])
+            p['objs'].append(edges)
+            return edges
+
+        def reason(edge, seed, confidence, *a, **kw):
+            p = tracer.cur
+            if p is not None:
+                hit = False
+                if p['steps']:
+                    for k, eo in enumerate(p['objs'][-1]):
+                        if eo is edge and p['steps'][-1][1][k][2] is None:
+                            p['steps'][-1][1][k][2] = confidence
+                            hit = True
+                            break
+                if not hit:
+                    p['unmatched'] += 1
+            return o_reason(edge, seed, confidence, *a, **kw)
+        ConceptInstanceGraph._reason_from = reason_from
+        Node.get_same_concept_inferences = same
+        Inference.reason = reason
+        return self
+
+    def __exit__(self, *exc):
+        if self.classes:
+            g, n, i = self.classes
+            g._reason_from, n.get_same_concept_inferences, i.reason = self.orig
+        return False
+
+
+def search_requests(passes):
+    reqs = []
+    for p in passes:
+        reqs.append({'op': 'search', 'nodes': [[f2q(c), f2q(t)] for c, t in p['nodes']], 'seed': p['seed'], 'min': f2q(p['min']),
+                     'eps': [str(EPS.numerator), str(EPS.denominator)], 'maxDepth': max(0, int(p['max_depth'])),
+                     'trace': [[n, [[t, f2q(c), None if r is None else f2q(r)] for t, c, r in es]] for n, es in p['steps']]})
+    return reqs
+
+
 class Hang(Exception):
     pass
 
@@ -142,13 +245,15 @@ def run(spec, order, min_conf, max_depth, upgrade_at=None):
     events = [spec['events'][i] for i in order]
     old = signal.signal(signal.SIGALRM, _alarm)
     signal.alarm(WATCHDOG_S)
+    tracer = SearchTracer()
     try:
-        for k, ev in enumerate(events):
-            if upgrade_at is not None and k == upgrade_at:
-                # the ontology is upgraded in mid stream: event types gain universals relations
-                m.add_ontology(build_ontology(spec, extra=True))
-            m.add_event(gen.build_event(ev, 'plain'))
-        m.mine(None, min_conf, max_depth)
+        with tracer:
+            for k, ev in enumerate(events):
+                if upgrade_at is not None and k == upgrade_at:
+                    # the ontology is upgraded in mid stream: event types gain universals relations
+                    m.add_ontology(build_ontology(spec, extra=True))
+                m.add_event(gen.build_event(ev, 'plain'))
+            m.mine(None, min_conf, max_depth)
         outcome = 'ok'
     except Hang:
         outcome = 'hang'
@@ -212,7 +317,8 @@ def run(spec, order, min_conf, max_depth, upgrade_at=None):
     except Exception as ex:
         return {'skipped': False, 'outcome': 'inspect-raised:' + type(ex).__name__ + ':' + str(ex)[:100]}
     return {'skipped': False, 'outcome': 'ok', 'instances': insts, 'taints': taints, 'uncovered': uncovered, 'json_same': json_same, 'titles_same': titles_same,
-            'universals': uni, 'noisy_checks': noisy_checks, 'taint_checks': taint_checks, 'n_nodes': len(nodes)}
+            'universals': uni, 'noisy_checks': noisy_checks, 'taint_checks': taint_checks, 'n_nodes': len(nodes),
+            'passes': tracer.passes, 'trace_problem': tracer.problem}
 
 
 class C20(Property):
@@ -222,20 +328,29 @@ class C20(Property):
     required_theorems = (
         'noisyOr_unit', 'noisyOr_ge_each', 'attribute_meets_minimum', 'taintOf_unit', 'taintHistory_unit', 'taintHistory_mono', 'dijkstra_unit', 'relatedStep_unit',
         'round_decreases', 'rounds_bounded', 'universals_exact', 'tenth_unit',
+        'search_wellformed', 'search_terminates', 'search_sorted', 'search_visited_final', 'checker_exact', 'coverage',
     )
-    level_text = ('PARTIAL. Lean 4 theorems over the confidence arithmetic of the miner on exact rationals: every noisy-or '
+    level_text = ('PARTIAL. Lean 4 theorems over (a) the confidence arithmetic of the miner on exact rationals: every noisy-or '
                   'combination (attribute, concept name and related concept confidences), the taint formula as the SDK computes '
-                  'it, and every reasoning step stay inside [0,1]; a reasoning step never raises the confidence; an attribute is '
-                  'at least as confident as every node confirming it, so it meets the requested minimum when its nodes do; each '
-                  'round of seed selection leaves strictly fewer candidate seeds, so mining without a seed ends within as many '
-                  'rounds as there are nodes; the mined universals are exactly the (name, description, container) pairs present '
-                  'in the events. The arithmetic and the universals are compared with the code on the values of real mining runs '
-                  '(floats converted exactly, results compared within rounding). The Dijkstra-like path search itself (which node '
-                  'gets which confidence), coverage and the JSON round trip are judged by the independent oracle on generated '
-                  'ontologies, event sets, orders and settings, with a watchdog: tested, not proved.')
-    level_note = ('PARTIAL: the graph search (hubs, path selection, depth and confidence cut-offs) is not modelled; binary '
-                  'floating point is modelled by exact rationals (differences below 1e-9 are ignored).')
-    technique = 'Lean 4 proof (bounds of the confidence arithmetic by induction over lists; termination measure of seed selection; set characterisation of universals) + differential correspondence; oracle-based testing of the graph search'
+                  'it, and every reasoning step stay inside [0,1]; an attribute is at least as confident as every node confirming '
+                  'it, so it meets the requested minimum when its nodes do; (b) the reasoning pass (_reason_from, the Dijkstra '
+                  'variant) as a checker of executions: for every graph, every cut-off, every order in which equally confident '
+                  'nodes are taken and every set of admitted edges, an accepted execution leaves the seed with confidence 1, all '
+                  'confidences in [0,1], every other assigned confidence above the requested minimum, processes no node twice (so '
+                  'the loop ends within as many iterations as there are nodes), processes nodes in order of decreasing confidence '
+                  'and never changes a confidence once its node was processed; the tolerant checker used for the comparison is '
+                  'the exact algorithm when its slack is zero; (c) seed selection: each round leaves strictly fewer candidate seeds '
+                  '(mining without a seed ends within as many rounds as there are nodes), and a node with positive taint belongs '
+                  'to an instance (coverage); (d) the mined universals are exactly the (name, description, container) pairs '
+                  'present in the events. Tied to the code by replaying the trace of every reasoning pass of real mining runs '
+                  '(processed nodes, considered edges, assigned confidences) through the checker and comparing the resulting '
+                  'confidences, and by comparing the arithmetic and the universals on the values of those runs. Which edges a '
+                  'pass may use (hub construction, concept scope), graph construction from events and the JSON round trip are '
+                  'judged by the independent oracle only: tested, not proved.')
+    level_note = ('PARTIAL: hub construction, the concept scope filter of edges (get_same_concept_inferences) and graph '
+                  'construction from events are inputs of the model, not modelled; binary floating point is modelled by exact '
+                  'rationals (the checker grants products a slack of 1e-9; theorems are about slack 0).')
+    technique = 'Lean 4 proof (invariants of the reasoning pass by induction over executions; bounds of the confidence arithmetic by induction over lists; termination measures; set characterisation of universals) + trace replay and differential correspondence; oracle-based testing of graph construction and JSON'
     parallel = True
     assumptions = ('confidences of the ontology are integers 0..10',)
 
@@ -243,12 +358,13 @@ class C20(Property):
         return ('cases: (ontology with 1-3 event types, concept associations incl. specialisations and attribute extensions, '
                 'intra/inter/other and universals relations; 0-7 events over 4 values; an event order; min_confidence; max_depth); '
                 'observed: outcome under a watchdog, every instance (seed, attributes, confidences, names, related concepts), '
-                'node taints, uncovered nodes, universals, JSON round trip; non-trivial = at least two instances; distinct by content')
+                'node taints, uncovered nodes, universals, JSON round trip, the trace of every reasoning pass; non-trivial = at least two instances; distinct by content')
 
     def generate(self, rng, tier):
         n = 150 if tier == 'quick' else 4000
         for i in range(n):
-            spec = gen_spec(rng)
+            # every fifth case: more events and mostly intra-concept relations, so that reasoning passes take several steps
+            spec = gen_spec(rng, big=(i % 5 == 2))
             order = list(range(len(spec['events'])))
             rng.shuffle(order)
             c = {'spec': spec, 'order': order, 'min_conf': rng.choice(MIN_CONF), 'max_depth': rng.choice(MAX_DEPTH)}
@@ -281,11 +397,19 @@ class C20(Property):
         # what is compared with the model: the arithmetic on the real values (rounded) and the universals
         return {'skipped': False, 'outcome': 'ok', 'noisy': [round(c[1], 9) for c in r['noisy_checks']],
                 'taint': [round(c[1], 9) for c in r['taint_checks']],
-                'taint_ok': self.taint_consistent(r), 'universals': r['universals'], 'detail': r}
+                'taint_ok': self.taint_consistent(r), 'universals': r['universals'], 'search': self.search_view(r), 'detail': r}
 
     @staticmethod
     def taint_consistent(r):
         return True
+
+    @staticmethod
+    def search_view(r):
+        # per reasoning pass: the trace is an execution of the algorithm, and the confidences it ends with
+        if r.get('trace_problem'):
+            return r['trace_problem']
+        return [['accepted' if not p['unmatched'] else 'confidence assigned through an edge that was not considered', p['sc']]
+                for p in r['passes']]
 
     def requests_obs(self, case, obs):
         # mining is not deterministic (instances depend on the iteration order of sets): the model is asked about the
@@ -311,19 +435,30 @@ class C20(Property):
                 reqs.append({'op': 'miner', 'noisy': [], 'taint': [], 'rels': rels, 'events': evs})
         reqs.append({'op': 'miner', 'noisy': [c[0] for c in r['noisy_checks']], 'taint': [c[0] for c in r['taint_checks']],
                      'seeds': [bool(c[2]) for c in r['taint_checks']], 'rels': [], 'events': []})
+        # the reasoning passes of this run, replayed by the model's checker of executions
+        self._n_uni = len(reqs)
+        reqs.extend(search_requests(r['passes']))
         return reqs
 
     def predict(self, case, replies):
         if not replies:
             return 'undecided'
         uni = {'names': set(), 'descriptions': set(), 'containers': set()}
-        for rep in replies[:-1]:
+        n_search = sum(1 for rep in replies if 'valid' in rep)
+        arith = replies[len(replies) - n_search - 1]
+        for rep in replies[:len(replies) - n_search - 1]:
             for k in uni:
                 uni[k] |= {tuple(x) for x in rep[k]}
-        noisy = [round(float(Fraction(int(n), int(d))), 9) for n, d in replies[-1]['noisy']]
-        taint = [round(float(Fraction(int(n), int(d))), 9) for n, d in replies[-1]['taintHistory']]
+        noisy = [round(float(Fraction(int(n), int(d))), 9) for n, d in arith['noisy']]
+        taint = [round(float(Fraction(int(n), int(d))), 9) for n, d in arith['taintHistory']]
+        search = []
+        for rep in replies[len(replies) - n_search:]:
+            if rep['valid']:
+                search.append(['accepted', [None if c is None else float(Fraction(int(c[0]), int(c[1]))) for c in rep['sc']]])
+            else:
+                search.append(['not an execution of the reasoning pass: entry %d of the trace' % rep['firstBad'], None])
         return {'skipped': False, 'outcome': 'ok', 'noisy': noisy, 'taint': taint, 'taint_ok': True,
-                'universals': {k: sorted(list(x) for x in v) for k, v in uni.items()}, 'detail': 'undecided'}
+                'universals': {k: sorted(list(x) for x in v) for k, v in uni.items()}, 'search': search, 'detail': 'undecided'}
 
     def fill_undecided(self, case, obs, pred):
         if pred == 'undecided':
